@@ -245,6 +245,12 @@ func (cr *ChunkReader) parseAndRemoveChunkInfo(p []byte) (int, error) {
 	if err != nil {
 		return 0, err
 	}
+	// every chunk carries a signature: a chunk header with an empty
+	// chunk-signature value would neither be verified nor advance the
+	// signature chain, and its data would be stored unproved
+	if sig == "" {
+		return 0, s3err.GetAPIError(s3err.ErrSignatureDoesNotMatch)
+	}
 	cr.parsedSig = sig
 	// If we hit the final chunk, calculate and validate the final
 	// chunk signature and finish reading
